@@ -13,7 +13,7 @@ import (
 
 func init() {
 	register("C09", "Linking: (R1) the set of AST fields the walker writes is exactly the 'requires validation' set (13 links + Used); every unconditional link of a node is stored on every path before that node's observers run; (R2) every conditional link (value links, the type in scope of an inline fragment) is control-dependent only on the resolvability tests it needs (frozen guard table: nil tests of the looked-up definition, kind tests, CurrentOperation) — an extra guard can only drop links of valid documents; (R3) provenance — each stored link is the lookup the property names (field definition on the parent type by the field's own name, directive definition by name, fragment by name, list child from Elem, object child from the field found under the child's name, argument from the argument definition found under the argument's name); (R4) CurrentOperation is set before, and cleared after, every walk inside walkOperation; (R5) every child of every node is walked before the node's observers run (shared with C08.R3).", runC09)
-	register("C08", "Validation coverage (weak, structural): (R1) the rules registered by init functions are exactly the specification's rules the library implements plus KnownRootType and MaxIntrospectionDepth, and every exported Rule is registered or a WithoutSuggestions twin; (R2) every schema attribute the specification's validation rules depend on is read by code reachable from the default rules and the walker; (R3) every event list is dispatched, for every node kind, on every path, and every child-bearing field of every executable node is walked (directives with the location constant of their node) before the node's observers run; (R4) type compatibility (Type.IsCompatible) compares like with like and reads NonNull of both sides at every level; the pair cache of the field-merge algorithm answers 'already compared' for a non-exclusive query only from a non-exclusive entry.", runC08)
+	register("C08", "Validation coverage (weak, structural): (R1) the rules registered by init functions are exactly the specification's rules the library implements plus KnownRootType and MaxIntrospectionDepth, and every exported Rule is registered or a WithoutSuggestions twin; (R2) every schema attribute the specification's validation rules depend on is read by code reachable from the default rules and the walker; (R3) every event list is dispatched, for every node kind, on every path, and every child-bearing field of every executable node is walked (directives with the location constant of their node) before the node's observers run; (R4) type compatibility (Type.IsCompatible) compares like with like and reads NonNull of both sides at every level; the pair cache of the field-merge algorithm answers 'already compared' for a non-exclusive query only from a non-exclusive entry; (R5) a visited set that keeps its entries (a memo) cuts a traversal only when every used scalar parameter that changes while the set is in use is part of its key.", runC08)
 }
 
 // ---------------------------------------------------------------------------
@@ -1238,6 +1238,9 @@ func runC08(c *Ctx) {
 	r4 := c.Rule("R4", "type compatibility is level-wise; the pair cache is direction-safe", 2)
 	typeComparisonRule(c, r4)
 	c08PairSet(c, r4)
+
+	r5 := c.Rule("R5", "a persistent visited set cuts a traversal only when its key determines the outcome", 3)
+	c08MemoKeys(c, r5)
 }
 
 // typeCaseEntry: the block entered when `it.(type)` is *ast.<name>.
@@ -1326,4 +1329,229 @@ func c08PairSet(c *Ctx, r *RuleResult) {
 	if okAll {
 		r.OK(fmt.Sprintf("pairSet.Has: %d non-false returns; non-exclusive queries are answered only from non-exclusive entries", n), "")
 	}
+}
+
+// c08MemoKeys (C08.R5): a visited set that keeps its entries after the visit (a memo) answers "already done" for every
+// later arrival with the same key. That is sound only if the outcome of the skipped traversal is a function of the
+// key: every scalar parameter of the gated function that changes around the recursion cycle (some call in the cycle
+// passes a computed value, e.g. depth+1, instead of the caller's own parameter) and is used must be part of the key.
+// In-progress sets (entries deleted on unwind) only break cycles and are C02.R4's business.
+func c08MemoKeys(c *Ctx, r *RuleResult) {
+	p := c.P
+	e := newEffects(p)
+	full := validationScope(p, e)
+	scope := map[*ssa.Function]bool{}
+	for fn := range full {
+		if pk := p.PkgOf(fn); pk != nil && (strings.HasSuffix(pk.PkgPath, "/parser") || strings.HasSuffix(pk.PkgPath, "/lexer")) {
+			continue
+		}
+		scope[fn] = true
+	}
+	c02Recursion(c, &RuleResult{seenSamples: map[string]bool{}, ctx: c}, &RuleResult{seenSamples: map[string]bool{}, ctx: c}, scope)
+	recs := c02GateRecords
+	if len(recs) == 0 {
+		r.AnchorLost("recursive calls behind visited-set gates (C02.R3)")
+		return
+	}
+	isScalar := func(t types.Type) bool {
+		b, ok := t.Underlying().(*types.Basic)
+		return ok && b.Info()&(types.IsInteger|types.IsBoolean|types.IsFloat) != 0
+	}
+	seen := map[string]bool{}
+	type pk struct {
+		fn  *ssa.Function
+		idx int
+	}
+	for _, rec := range recs {
+		inSCC := map[*ssa.Function]bool{}
+		for _, f := range rec.scc {
+			inSCC[f] = true
+		}
+		for _, g := range rec.persistent {
+			fn := g.fn
+			key := p.FuncName(fn) + " | " + setName(g.setKey)
+			if seen[key] {
+				continue
+			}
+			seen[key] = true
+			root := rootFunc(fn)
+			// the lifetime of the set: when it is handed down as a parameter, only the calls that pass the caller's own
+			// set on belong to one lifetime (a call passing a fresh map starts another); a set held in a field or a
+			// captured variable lives across every call of the cycle
+			holder := map[pk]bool{}
+			byParam := false
+			if fn == root {
+				for i, prm := range root.Params {
+					if "p:"+prm.Name() == g.setKey {
+						holder[pk{root, i}] = true
+						byParam = true
+					}
+				}
+			}
+			if byParam {
+				for changed := true; changed; {
+					changed = false
+					for _, f := range rec.scc {
+						allInstrs(f, func(in ssa.Instruction) {
+							ci, ok := in.(ssa.CallInstruction)
+							if !ok {
+								return
+							}
+							cal := ci.Common().StaticCallee()
+							if cal == nil || !inSCC[cal] {
+								return
+							}
+							for i, a := range ci.Common().Args {
+								prm, isPrm := stripChange(a).(*ssa.Parameter)
+								if !isPrm || i >= len(cal.Params) {
+									continue
+								}
+								pi := paramIndex(f, prm)
+								if holder[pk{f, pi}] != holder[pk{cal, i}] && types.Identical(prm.Type(), cal.Params[i].Type()) {
+									if _, isMap := prm.Type().Underlying().(*types.Map); isMap {
+										holder[pk{f, pi}], holder[pk{cal, i}] = true, true
+										changed = true
+									}
+								}
+							}
+						})
+					}
+				}
+			}
+			sameSet := func(f *ssa.Function, ci ssa.CallInstruction, cal *ssa.Function) bool {
+				if !byParam {
+					return true
+				}
+				for i, a := range ci.Common().Args {
+					if i < len(cal.Params) && holder[pk{cal, i}] {
+						prm, isPrm := stripChange(a).(*ssa.Parameter)
+						return isPrm && holder[pk{f, paramIndex(f, prm)}]
+					}
+				}
+				return false
+			}
+			tracked := func(t types.Type) bool {
+				// scalars only: pointer parameters are mostly accumulators and the nodes the key is taken from
+				return isScalar(t)
+			}
+			// parameters that change within one lifetime of the set
+			varying := map[pk]bool{}
+			for changed := true; changed; {
+				changed = false
+				for _, f := range rec.scc {
+					allInstrs(f, func(in ssa.Instruction) {
+						ci, ok := in.(ssa.CallInstruction)
+						if !ok {
+							return
+						}
+						cal := ci.Common().StaticCallee()
+						if cal == nil || !inSCC[cal] || !sameSet(f, ci, cal) {
+							return
+						}
+						for i, a := range ci.Common().Args {
+							if i >= len(cal.Params) || !tracked(cal.Params[i].Type()) || varying[pk{cal, i}] {
+								continue
+							}
+							if _, isConst := stripChange(a).(*ssa.Const); isConst {
+								continue
+							}
+							prm, isPrm := stripChange(a).(*ssa.Parameter)
+							if !isPrm || varying[pk{f, paramIndex(f, prm)}] {
+								varying[pk{cal, i}] = true
+								changed = true
+							}
+						}
+					})
+				}
+			}
+			// what the key is made of
+			var keyVals []ssa.Value
+			switch t := g.test.(type) {
+			case *ssa.Lookup:
+				keyVals = append(keyVals, t.Index)
+			case ssa.CallInstruction:
+				keyVals = append(keyVals, t.Common().Args...)
+			}
+			inKey := func(prm *ssa.Parameter) bool {
+				for _, kv := range keyVals {
+					if derivesFromAny(kv, prm, 8) {
+						return true
+					}
+				}
+				return false
+			}
+			bad := ""
+			for i, prm := range root.Params {
+				if !varying[pk{root, i}] || holder[pk{root, i}] {
+					continue
+				}
+				if prm.Referrers() == nil || len(*prm.Referrers()) == 0 {
+					continue
+				}
+				if i == 0 && root.Signature.Recv() != nil {
+					continue // the receiver: the object that holds the state
+				}
+				if !inKey(prm) {
+					if bad != "" {
+						bad += ", "
+					}
+					bad += prm.Name()
+				}
+			}
+			if bad != "" {
+				r.Fail(g.test.Pos(), p.FuncName(fn), "memo "+setName(g.setKey)+" ignores the varying parameter "+bad, "the visited set keeps its entries after the visit and answers 'already done' by its key alone, but the traversal it cuts also depends on "+bad+", which changes while the same set is in use (a call in the cycle passes a different value on): a second arrival with the same key and a different "+bad+" is skipped although its outcome can differ — a violation reachable only that way is not reported")
+			} else {
+				r.OK("persistent visited set "+key, "every used parameter of the gated function that changes while the set is in use is part of the key")
+			}
+		}
+	}
+}
+
+// derivesFromAny: v is computed from prm — through field loads, conversions, calls and, inside closures, the captured
+// variable of the same name.
+func derivesFromAny(v ssa.Value, prm *ssa.Parameter, depth int) bool {
+	if depth <= 0 {
+		return false
+	}
+	v = stripChange(v)
+	if v == ssa.Value(prm) {
+		return true
+	}
+	switch x := v.(type) {
+	case *ssa.FreeVar:
+		return x.Name() == prm.Name()
+	case *ssa.UnOp:
+		return derivesFromAny(x.X, prm, depth-1)
+	case *ssa.FieldAddr:
+		return derivesFromAny(x.X, prm, depth-1)
+	case *ssa.Field:
+		return derivesFromAny(x.X, prm, depth-1)
+	case *ssa.IndexAddr:
+		return derivesFromAny(x.X, prm, depth-1)
+	case *ssa.Alloc:
+		for _, s := range storesTo(x) {
+			if derivesFromAny(s, prm, depth-1) {
+				return true
+			}
+		}
+	case *ssa.Call:
+		for _, a := range x.Call.Args {
+			if derivesFromAny(a, prm, depth-1) {
+				return true
+			}
+		}
+	case *ssa.Extract:
+		return derivesFromAny(x.Tuple, prm, depth-1)
+	case *ssa.MakeInterface:
+		return derivesFromAny(x.X, prm, depth-1)
+	case *ssa.BinOp:
+		return derivesFromAny(x.X, prm, depth-1) || derivesFromAny(x.Y, prm, depth-1)
+	case *ssa.Phi:
+		for _, e := range x.Edges {
+			if derivesFromAny(e, prm, depth-1) {
+				return true
+			}
+		}
+	}
+	return false
 }
